@@ -42,6 +42,19 @@ with read_fields (fs : fields) (vals : list val) : list val :=
 
 Definition any_set (xs : list val) : bool := negb (forallb is_vnil xs).
 
+(* the value populateStruct builds from the leaf values, positionally *)
+Fixpoint build_ty (t : ty) (xs : list val) : val :=
+  match t with
+  | TPtr (TStruct fs _) => if any_set xs then VPtr (VStruct (build_fields fs xs)) else VNil
+  | _ => hd VNil xs
+  end
+with build_fields (fs : fields) (xs : list val) : list val :=
+  match fs with
+  | FNil => []
+  | FCons _ _ _ t r =>
+      build_ty t (firstn (length (leaves_ty t)) xs) :: build_fields r (skipn (length (leaves_ty t)) xs)
+  end.
+
 Lemma all_nil_repeat xs : forallb is_vnil xs = true -> xs = map (fun _ => VNil) xs.
 Proof.
   induction xs as [|x r IH]; simpl; [reflexivity|]. intros H. apply andb_true_iff in H as [H1 H2].
@@ -104,11 +117,11 @@ Qed.
 Definition ty_stmt (t : ty) : Prop :=
   forall xs rest, length xs = length (leaves_ty t) ->
     exists v, pop_ty t t (combine (leaves_ty t) xs ++ rest) = Ok (v, rest, any_set xs) /\
-              read_ty t v = xs /\ (any_set xs = false -> v = VNil).
+              read_ty t v = xs /\ (any_set xs = false -> v = VNil) /\ v = build_ty t xs.
 Definition fields_stmt (fs : fields) : Prop :=
   forall xs rest, length xs = length (leaves_fields fs) ->
     exists vals, pop_fields fs (combine (leaves_fields fs) xs ++ rest) = Ok (vals, rest, any_set xs) /\
-                 read_fields fs vals = xs.
+                 read_fields fs vals = xs /\ vals = build_fields fs xs.
 
 Lemma leaf_stmt t : wf_ty t = true -> under_is_struct t = false -> leaves_ty t = [t] ->
   (forall v, read_ty t v = [v]) -> ty_stmt t.
@@ -116,12 +129,24 @@ Proof.
   intros W U Lv Rd xs rest L. rewrite Lv in *.
   destruct xs as [|x [|? ?]]; simpl in L; try discriminate.
   exists x. simpl combine. simpl app. rewrite pop_ty_leaf by assumption.
-  unfold any_set. simpl. rewrite andb_true_r. repeat split; [apply Rd|].
-  intros N. destruct x; simpl in N; try discriminate. reflexivity.
+  unfold any_set. simpl. rewrite andb_true_r. repeat split; [apply Rd | |].
+  - intros N. destruct x; simpl in N; try discriminate. reflexivity.
+  - destruct t as [| |e| | | | | | |]; try reflexivity. destruct e; try reflexivity. simpl in U. discriminate.
 Qed.
 
 Lemma any_set_app xs ys : any_set (xs ++ ys) = any_set xs || any_set ys.
 Proof. unfold any_set. rewrite forallb_app. now rewrite negb_andb. Qed.
+
+Lemma build_leaf t x : under_is_struct t = false -> build_ty t [x] = x.
+Proof. destruct t as [| |e| | | | | | |]; try reflexivity. destruct e; try reflexivity. simpl. discriminate. Qed.
+
+Lemma build_fields_app n tg an t r x1 x2 : length x1 = length (leaves_ty t) ->
+  build_fields (FCons n tg an t r) (x1 ++ x2) = build_ty t x1 :: build_fields r x2.
+Proof.
+  intros L. cbn [build_fields]. rewrite <- L.
+  rewrite firstn_app, firstn_all, Nat.sub_diag. simpl firstn. rewrite app_nil_r.
+  rewrite skipn_app, skipn_all, Nat.sub_diag. reflexivity.
+Qed.
 
 Lemma pop_readback :
   (forall t, (wf_ty t = true -> ty_stmt t) /\
@@ -137,11 +162,11 @@ Proof.
     + now apply leaf_stmt.
     + inversion E; subst e. clear E.
       specialize (IHs fs nm eq_refl Wf). intros xs rest L.
-      destruct (IHs xs rest L) as (vals & P & R).
+      destruct (IHs xs rest L) as (vals & P & R & B).
       rewrite pop_ty_struct. simpl leaves_ty. rewrite P. cbn [obind].
       destruct (any_set xs) eqn:A.
-      * exists (VPtr (VStruct vals)). repeat split; [exact R | discriminate].
-      * exists VNil. repeat split. simpl.
+      * exists (VPtr (VStruct vals)). repeat split; [exact R | discriminate | cbn [build_ty]; now rewrite A, B].
+      * exists VNil. split; [reflexivity|]. split; [| split; [reflexivity | cbn [build_ty]; now rewrite A]]. simpl.
         unfold any_set in A. apply negb_false_iff in A.
         rewrite (all_nil_repeat xs A). apply map_const_length. now rewrite L.
   - intros e IH nm. split; [| intros; discriminate].
@@ -168,7 +193,7 @@ Proof.
     assert (L2 : length x2 = length (leaves_fields r)) by (unfold x2; rewrite skipn_length; lia).
     rewrite X. rewrite combine_app by (symmetry; exact L1). rewrite <- app_assoc.
     rewrite pop_fields_cons. rewrite Wex. cbn [negb].
-    destruct (IHr Wr x2 rest L2) as (vr & Pr & Rr).
+    destruct (IHr Wr x2 rest L2) as (vr & Pr & Rr & Br).
     destruct (wf_leaf_or_struct t Wt) as [(U & Lv & Rd) | (fs & nm & E & Wf)].
     + rewrite U. unfold n1 in L1. rewrite Lv in *. simpl in L1.
       destruct x1 as [|x [|? ?]]; simpl in L1; try discriminate.
@@ -181,16 +206,21 @@ Proof.
       destruct (is_vnil x) eqn:Nx.
       * cbn [obind]. rewrite Pr. cbn [obind]. exists (zero t :: vr).
         destruct x; try discriminate. rewrite (proj1 (proj2 (wf_ty_nilable t Wt))).
-        split; [reflexivity|]. now rewrite RF, Rd, Rr.
+        split; [reflexivity|]. split; [now rewrite RF, Rd, Rr|].
+        rewrite (build_fields_app n tg an t r [VNil] x2) by (rewrite Lv; reflexivity). rewrite <- Br.
+        now rewrite build_leaf by exact U.
       * cbn [obind snd]. rewrite Pr. cbn [obind]. exists (x :: vr).
-        split; [unfold any_set at 2; simpl; rewrite Nx; reflexivity|]. now rewrite RF, Rd, Rr.
+        split; [unfold any_set at 2; simpl; rewrite Nx; reflexivity|]. split; [now rewrite RF, Rd, Rr|].
+        rewrite (build_fields_app n tg an t r [x] x2) by (rewrite Lv; reflexivity). rewrite <- Br.
+        now rewrite build_leaf by exact U.
     + subst t. assert (U : under_is_struct (TPtr (TStruct fs nm)) = true) by reflexivity. rewrite U.
-      destruct (IHt Wt x1 (combine (leaves_fields r) x2 ++ rest) L1) as (v & P & R & _).
+      destruct (IHt Wt x1 (combine (leaves_fields r) x2 ++ rest) L1) as (v & P & R & _ & Bv).
       rewrite P. cbn [obind]. rewrite Pr. cbn [obind]. exists (v :: vr).
       rewrite any_set_app. split; [reflexivity|].
       change (read_fields (FCons n tg an (TPtr (TStruct fs nm)) r) (v :: vr))
         with (read_ty (TPtr (TStruct fs nm)) v ++ read_fields r vr).
-      now rewrite R, Rr.
+      split; [now rewrite R, Rr|].
+      rewrite (build_fields_app n tg an (TPtr (TStruct fs nm)) r x1 x2) by exact L1. now rewrite Bv, Br.
 Qed.
 
 (* the types of the fields flattenStruct produces are the declared types of the leaves, in order *)
@@ -264,7 +294,7 @@ Proof.
       rewrite E in U. discriminate. }
   assert (L' : length xs = length (leaves_ty (sf_ty f))) by (rewrite <- T, map_length; exact L).
   destruct (proj1 pop_readback (sf_ty f)) as [St _].
-  destruct (St Wt xs [] L') as (v & P & R & N).
+  destruct (St Wt xs [] L') as (v & P & R & N & _).
   exists v. unfold flatten_unmangle. rewrite Hv, T. rewrite app_nil_r in P. rewrite P.
   repeat split; [exact R|]. intros A. apply N. unfold any_set. now rewrite A.
 Qed.
@@ -410,4 +440,25 @@ Proof.
       { destruct (sf_ty f) as [| |e| | | | | | |]; try reflexivity. destruct e; try reflexivity. simpl in U. discriminate. }
       repeat split; auto. discriminate.
     + rewrite E in U. discriminate.
+Qed.
+
+(* the same with the rebuilt value made explicit *)
+Lemma flatten_unmangle_build : forall tag te f outs (fvs : list fvt) xs,
+  wf_sf f = true -> flatten_mangle tag 0 te f = Ok outs ->
+  length xs = length outs -> map snd fvs = combine (map sf_ty outs) xs ->
+  flatten_unmangle (Some f) fvs = Ok (sf_ty f, build_ty (sf_ty f) xs).
+Proof.
+  intros tag te f outs fvs xs W H L Hv.
+  destruct (wf_sf_parts f W) as (Wn & Wt & Wa).
+  rewrite flatten_mangle_wf in H by exact Wt. dob H nt Hnt.
+  assert (T : map sf_ty outs = leaves_ty (sf_ty f)).
+  { destruct (under_is_struct (sf_ty f)) eqn:U.
+    - eapply (proj1 (fl_types tag te)); [exact Wt | left; reflexivity | exact H].
+    - inversion H; subst. simpl.
+      destruct (wf_leaf_or_struct (sf_ty f) Wt) as [(_ & Lv & _) | (fs & nm & E & _)]; [now rewrite Lv|].
+      rewrite E in U. discriminate. }
+  assert (L' : length xs = length (leaves_ty (sf_ty f))) by (rewrite <- T, map_length; exact L).
+  destruct (proj1 pop_readback (sf_ty f)) as [St _].
+  destruct (St Wt xs [] L') as (v & P & R & N & B).
+  unfold flatten_unmangle. rewrite Hv, T. rewrite app_nil_r in P. rewrite P. now rewrite B.
 Qed.
